@@ -1,5 +1,6 @@
 import VirtioVerif.Model.Proto
 import VirtioVerif.Model.Layout
+import VirtioVerif.Model.Gpu
 /-!
 Native line-protocol driver over all models: one request line in, one reply line out.
 `case …` lines reset per-case state and are echoed as `case`.
@@ -8,6 +9,7 @@ open VirtioVerif
 
 structure World where
   dummy : Unit := ()
+  gpu : Gpu.St := {}
 
 def World.fresh : World := {}
 
@@ -15,6 +17,7 @@ def step (w : World) (line : String) : World × String :=
   match line.trimAscii.toString.splitOn " " with
   | "case" :: _ => (World.fresh, "case")
   | "layout" :: op :: rest => (w, Layout.handle op (Proto.parseArgs rest))
+  | "gpu" :: op :: rest => let (g, o) := Gpu.handle w.gpu op (Proto.parseArgs rest); ({ w with gpu := g }, o)
   | _ => (w, "bad-op")
 
 partial def loop (h : IO.FS.Stream) (out : IO.FS.Stream) (w : World) : IO Unit := do
